@@ -171,3 +171,160 @@ class Site:
             out["disk"] = sorted([p] + v for p, v in vworld.disk_proj(self.L, skip=(".bzr", "backup.bzr")).items()
                                  if not p.startswith("backup.bzr"))
         return out
+
+
+# ----------------------------------------------------------------------------- replay
+import json
+import re
+
+_label = re.compile(r'^(\w+)(?:\((.*)\))?$')
+ALREADY = ("AlreadyBranch", "AlreadyTree", "AlreadyCheckout", "AlreadyLightweightCheckout", "AlreadyUsingShared",
+           "AlreadyStandalone")
+
+
+def canon(c):
+    """Content projection -> one canonical string per component (TLC compares them)."""
+    s = lambda v: json.dumps(v, sort_keys=True, ensure_ascii=True)
+    return {"tip": c["tip"], "revno": c["revno"], "testaments": s(c["testaments"]), "parents": s(c["parents"]),
+            "tags": s(c["tags"]), "hasTree": c["wt"] != "none", "wt": s(c["wt"]), "wtparents": s(c.get("wt_parents", [])),
+            "changes": s(c["changes"]), "disk": s(c["disk"]), "tipTree": s(c["tipTree"])}
+
+
+def replay_paths(sub, chunk):
+    from breezy import ui
+    ui.ui_factory = ui.SilentUIFactory()
+    for k, (path, states) in enumerate(chunk):
+        base = os.path.join(sub.workdir, "site%d" % k)
+        os.mkdir(base)
+        try:
+            replay_one(sub, base, path, states)
+        finally:
+            shutil.rmtree(base, ignore_errors=True)
+
+
+def tip_tree(site):
+    from breezy import controldir
+    b = controldir.ControlDir.open(site.L).open_branch()
+    return sorted([p] + v for p, v in vworld.tree_proj(b.repository.revision_tree(b.last_revision())).items())
+
+
+def replay_one(sub, base, path, states):
+    lay0 = states[path[0][1]]["lay"]
+    site = Site(base, lay0)
+    r0 = site.layout()
+    if any(r0[x] != lay0[x] for x in ("tree", "br", "repo")):
+        sub.machinery("fixture for %s came out as %s" % (lay0, r0))
+    c0 = site.content()
+    c0["tipTree"] = tip_tree(site)
+    log = []
+    rows = sub.cov.setdefault("_collect", [])
+    for i in range(1, len(path)):
+        act, nid = path[i]
+        l0, st1 = states[path[i - 1][1]]["lay"], states[nid]
+        m = _label.match(act)
+        name, arg = m.group(1), (m.group(2) or "").strip('"')
+        try:
+            if name == "Reconfigure":
+                site.reconfigure(arg)
+            elif name == "Upgrade":
+                site.upgrade(arg)
+            elif name == "UpgradeShared":
+                site.upgrade(arg, "shared")
+            else:
+                sub.machinery("unknown action " + act)
+            rout, exc = "ok", ""
+        except Exception as e:
+            exc = type(e).__name__
+            rout = "already" if exc in ALREADY else "refused"
+        log.append([name, arg, rout, exc])
+        try:
+            r1 = site.layout()
+            c1 = site.content()
+            c1["tipTree"] = tip_tree(site)
+        except Exception as e:
+            # the location cannot even be opened / read any more
+            sub.violation("unreadable-after:%s(%s):%s" % (name, arg if name == "Reconfigure" else "format", type(e).__name__),
+                          "after %s the location cannot be read: %s: %s" % (log, type(e).__name__, str(e)[:200]),
+                          {"initial_layout": lay0, "log": log})
+            sub.count(1)
+            return
+        rows.append({"l0": l0, "l1": st1["lay"], "out": st1["last"], "act": name, "arg": arg, "r1": r1, "rout": rout, "c0": canon(c0), "c1": canon(c1),
+                     "meta": {"initial_layout": lay0, "log": [list(x) for x in log], "exc": exc,
+                              "before": {k: c0[k] for k in ("tip", "revno", "tags", "changes", "wt")},
+                              "after": {k: c1[k] for k in ("tip", "revno", "tags", "changes", "wt")}}})
+        sub.count(1)
+        if rout == "ok" and st1["lay"] != l0:
+            sub.nontrivial(repr((sorted(lay0.items()), [tuple(x[:2]) for x in log])))
+        c0 = c1
+    if len(sub.cov["samples"]) < 1 and len(log) >= 2 and all(x[2] == "ok" for x in log):
+        sub.sample({"initial_layout": lay0, "steps": log})
+
+
+def cfg(maxsteps, formats, extra=""):
+    return ("SPECIFICATION Spec\nCONSTANTS\n  MaxSteps = %d\n  InitFormats = {%s}\nINVARIANT LayoutOK\nINVARIANT ContentPreserved\n"
+            % (maxsteps, ", ".join('"%s"' % f for f in formats))) + extra
+
+
+PROVED = "PROPERTY PendingKept\nPROPERTY CreatedClean\nPROPERTY RefusalIsNoop\nPROPERTY NeverDropsPending\n"
+
+
+def run(ctx):
+    env.init()
+    steps = 2 if ctx.tier != "thorough" else 3
+    tlc.check(ctx, "Layouts", cfg_text=cfg(steps, FORMATS, PROVED), label="layout algebra, all sequences <= %d" % steps, workers=8)
+    for wit, fm in (("WitnessRoundTrip", FORMATS), ("WitnessUnused", FORMATS), ("WitnessUpgradedShared", ["pack-0.92"])):
+        tlc.check(ctx, "Layouts", cfg_text=cfg(2, fm, "INVARIANT %s\n" % wit), expect_violation=wit, label="witness " + wit, workers=4)
+    nodes, edges, inits, res = tlc.graph(ctx, "Layouts", cfg_text=cfg(steps, FORMATS), label="state graph", workers=8)
+    paths = [p for p in tlc.transition_cover(nodes, edges, inits, rng=ctx.rng) if len(p) > 1]
+    ctx.cov["graph"] = {"nodes": len(nodes), "edges": len(edges), "initial_layouts": len(inits), "cover_paths": len(paths)}
+    parsed = {}
+
+    def st(nid):
+        if nid not in parsed:
+            parsed[nid] = to_py(parse_state(nodes[nid]))
+        return parsed[nid]
+    # prefer sequences in which more steps actually change something
+    def weight(p):
+        return -sum(1 for _, nid in p[1:] if st(nid)["last"] == "ok")
+    ctx.rng.shuffle(paths)
+    paths.sort(key=weight)
+    want = (80 if ctx.quick else 2000) if ctx.tier != "tiny" else 10
+    # round-robin over (initial layout kind, first action) so that every transition kind is replayed
+    groups = {}
+    for p in paths:
+        l0 = st(p[0][1])["lay"]
+        groups.setdefault((l0["tree"], l0["br"], l0["repo"], p[1][0]), []).append(p)
+    picked = []
+    keys = sorted(groups, key=repr)
+    while len(picked) < want and any(groups[k] for k in keys):
+        for k in keys:
+            if groups[k] and len(picked) < want:
+                picked.append(groups[k].pop(0))
+    jobs = [(p, {nid: st(nid) for _, nid in p}) for p in picked]
+    ctx.rule("sequences = paths of a transition cover of TLC's state graph of Layouts.tla (88 initial layouts: tree yes/no x branch "
+             "local / bound / reference x repository own / shared / none x inside a shared repository or not x 4 formats x "
+             "clean / pending changes; <= %d actions of Reconfigure(6 targets), Upgrade(4 formats), UpgradeShared(4 formats)); "
+             "%d cover paths, replayed: %d (round-robin over (initial layout kind, first action), sequences with more effective "
+             "steps first); non-trivial = sequence whose steps change the layout; distinct = (initial layout, actions)"
+             % (steps, len(paths), len(picked)))
+    core.fork_map(ctx, replay_paths, jobs)
+    rows = ctx.collected
+    if not rows:
+        ctx.machinery("nothing was replayed")
+    verdicts = table.judge(ctx, "LayoutsTrace", [dict({k: r[k] for k in ("l0", "l1", "act", "arg", "r1", "rout", "c0", "c1")}, k=k)
+                                                  for k, r in enumerate(rows)])
+    for jr, failed, drift in verdicts:
+        r = rows[jr["k"]]
+        meta = r["meta"]
+        name, arg = meta["log"][-1][0], meta["log"][-1][1]
+        l0 = r["l0"]
+        src = "%s,%s,%s" % ("tree" if l0["tree"] else "no-tree", l0["br"], l0["repo"])
+        for law in failed:
+            what = "%s(%s)" % (name, arg) if name == "Reconfigure" else "%s(%s>%s)" % (name, l0["fmt"], arg)
+            ctx.violation("%s:%s:%s%s" % (law, what, src, ",pending" if l0["dirty"] else ""),
+                          "%s on a [%s] location (%s): law %s fails; before %s after %s" % (
+                              what, src, meta["exc"] or "no exception", law, meta["before"], meta["after"]), meta)
+        if drift and not failed:
+            ctx.drift("layout / outcome differs from the model after %s(%s) on [%s fmt=%s above=%s]: model %s %s, real %s %s (%s)" % (
+                name, arg, src, l0["fmt"], l0["above"], r["out"], {k: r["l1"][k] for k in ("tree", "br", "repo")}, r["rout"], r["r1"],
+                meta["exc"]), meta)
